@@ -25,6 +25,10 @@
 #include "config.h"
 
 #define IV_TIMER_SPLIT_BITS	7
+#if defined(IVYKIS_VERIF) && defined(IVYKIS_VERIF_TIMER_SPLIT_BITS)
+#undef IV_TIMER_SPLIT_BITS
+#define IV_TIMER_SPLIT_BITS	IVYKIS_VERIF_TIMER_SPLIT_BITS
+#endif
 #define IV_TIMER_SPLIT_NODES	(1 << IV_TIMER_SPLIT_BITS)
 
 struct iv_timer_ratnode {
